@@ -867,6 +867,22 @@ func (ev *Evaluator) binop(op string, l, r Value) (Value, *ctrl) {
 			}
 			return FloatV(a / b), nil
 		case "**":
+			// defined here only where IEEE-754 fixes the result without a pow algorithm: small integral
+			// exponents by repeated multiplication of exactly representable values, reciprocal, square root
+			switch {
+			case b == 0:
+				return FloatV(1), nil
+			case b == 1:
+				return FloatV(a), nil
+			case b == 2:
+				return FloatV(a * a), nil
+			case b == 3 && math.Abs(a) <= 1024 && a == math.Trunc(a*1024)/1024:
+				return FloatV(a * a * a), nil
+			case b == -1 && a != 0:
+				return FloatV(1 / a), nil
+			case b == 0.5 && a >= 0:
+				return FloatV(math.Sqrt(a)), nil
+			}
 			return nil, ev.abort("float pow")
 		case "<":
 			return BoolV(a < b), nil
